@@ -305,9 +305,17 @@ pub fn npo_run(ctx: &Ctx, idx: u64, c09: bool, out: &mut RunOut) {
 /// with `add_poseidon2_perm` (the public low-level API), optionally preceded by `pre` independent
 /// sponge rows, exposing the path's `mmcs_index_sum` on its last row (the index is a public input).
 macro_rules! raw_merkle {
-    ($fname:ident, $bname:ident, $params:ident, $p2params:ty, $p2cfg:expr, $defperm:path, $uni:ty) => {
+    ($fname:ident, $bname:ident, $rname:ident, $params:ident, $p2params:ty, $p2cfg:expr, $defperm:path, $uni:ty) => {
         #[allow(clippy::type_complexity)]
         pub fn $bname(depth: usize, pre: usize, expose_index: bool, seed: u64) -> Result<(p3_circuit::Circuit<p3_test_utils::$params::Challenge>, p3_circuit::tables::Traces<p3_test_utils::$params::Challenge>), (String, String)> {
+            $rname(depth, pre, expose_index, seed, false)
+        }
+        /// `rich`: the limbs of the independent sponge rows come out of ALU ops (a product that is
+        /// also the operand of exactly one addition, a fused sum, a mul_add result) and their
+        /// outputs feed ALU ops again, so that the optimizer's use counts, fusion and creator
+        /// assignment see slots that are read by a non-primitive table as well.
+        #[allow(clippy::type_complexity)]
+        pub fn $rname(depth: usize, pre: usize, expose_index: bool, seed: u64, rich: bool) -> Result<(p3_circuit::Circuit<p3_test_utils::$params::Challenge>, p3_circuit::tables::Traces<p3_test_utils::$params::Challenge>), (String, String)> {
             use p3_circuit::ops::{NpoPrivateData, Poseidon2PermCall, Poseidon2PermPrivateData, generate_poseidon2_trace, generate_recompose_trace};
             use p3_field::{BasedVectorSpace, PrimeCharacteristicRing};
             use p3_symmetric::Permutation;
@@ -337,6 +345,7 @@ macro_rules! raw_merkle {
             }
             let root = [EF::from_basis_coefficients_slice(&digest[..LIMB]).unwrap(), EF::from_basis_coefficients_slice(&digest[LIMB..]).unwrap()];
             let index: u64 = bits.iter().enumerate().map(|(i, &b)| (b as u64) << (depth - 1 - i)).sum();
+            let pre_plan: Vec<(u64, EF, EF, EF, bool)> = if rich { (0..pre).map(|_| (rng.below(5), limb(&mut rng), limb(&mut rng), limb(&mut rng), rng.chance(1, 2))).collect() } else { Vec::new() };
             let built = observe(|| -> Result<_, String> {
                 let mut b = p3_circuit::CircuitBuilder::<EF>::new();
                 b.enable_poseidon2_perm::<$p2params, _>(generate_poseidon2_trace::<EF, $p2params>, perm.clone());
@@ -346,7 +355,61 @@ macro_rules! raw_merkle {
                 let index_expr = b.public_input();
                 let mut pubs = vec![root[0], root[1], EF::from(F::from_u64(index))];
                 // independent sponge rows first: they only move the Merkle rows inside the table
-                for k in 0..pre {
+                for (mode, va, vb, vc, consume) in pre_plan.iter().copied() {
+                    let zero = b.alloc_const(EF::ZERO, "z");
+                    let a = b.public_input();
+                    pubs.push(va);
+                    let (l0, l1, v0, v1) = if mode == 0 {
+                        (a, zero, va, EF::ZERO)
+                    } else {
+                        let bb = b.public_input();
+                        pubs.push(vb);
+                        let c = b.public_input();
+                        pubs.push(vc);
+                        match mode {
+                            1 => {
+                                let m = b.mul(a, bb);
+                                let s = b.add(m, c);
+                                (m, s, va * vb, va * vb + vc)
+                            }
+                            2 => {
+                                let m = b.mul(a, bb);
+                                let s = b.add(m, c);
+                                (s, zero, va * vb + vc, EF::ZERO)
+                            }
+                            3 => {
+                                let t = b.add(a, bb);
+                                let q = b.mul(t, c);
+                                (t, q, va + vb, (va + vb) * vc)
+                            }
+                            _ => {
+                                let r = b.mul_add(a, bb, c);
+                                (r, a, va * vb + vc, va)
+                            }
+                        }
+                    };
+                    let (_id, outs) = b
+                        .add_poseidon2_perm(&Poseidon2PermCall { config: $p2cfg, new_start: true, merkle_path: false, mmcs_bit: None, mmcs_bit2: None, inputs: vec![Some(l0), Some(l1), Some(zero), Some(zero)], out_ctl: vec![true, false], return_all_outputs: false, mmcs_index_sum: None })
+                        .map_err(|e| format!("{e:?}"))?;
+                    let mut st = [F::ZERO; 16];
+                    st[..LIMB].copy_from_slice(v0.as_basis_coefficients_slice());
+                    st[LIMB..2 * LIMB].copy_from_slice(v1.as_basis_coefficients_slice());
+                    let o = perm.permute(st);
+                    let o0 = EF::from_basis_coefficients_slice(&o[..LIMB]).unwrap();
+                    if consume {
+                        // the row's output is a multiplication operand whose product feeds one addition
+                        let w = b.mul(outs[0].unwrap(), a);
+                        let w2 = b.add(w, a);
+                        let pw = b.public_input();
+                        b.connect(w2, pw);
+                        pubs.push(o0 * va + va);
+                    } else {
+                        let y = b.public_input();
+                        b.connect(outs[0].unwrap(), y);
+                        pubs.push(o0);
+                    }
+                }
+                for k in 0..(if rich { 0 } else { pre }) {
                     let x = b.public_input();
                     pubs.push(EF::from(F::from_u64(7 + k as u64)));
                     let zero = b.alloc_const(EF::ZERO, "z");
@@ -397,16 +460,16 @@ macro_rules! raw_merkle {
                 Err(p) => Err(("build_or_run_panic".to_string(), p)),
             }
         }
-        fn $fname(depth: usize, pre: usize, expose_index: bool, seed: u64, cfg: &ProverCfg) -> Result<(), (String, String)> {
-            let (circuit, traces) = $bname(depth, pre, expose_index, seed)?;
+        fn $fname(depth: usize, pre: usize, expose_index: bool, seed: u64, cfg: &ProverCfg, rich: bool) -> Result<(), (String, String)> {
+            let (circuit, traces) = $rname(depth, pre, expose_index, seed, rich)?;
             let (keys, info) = pipe::keygen::<$uni>(&circuit, cfg).map_err(|f| (f.stage.name().to_string(), f.msg))?;
             let proof = pipe::prove::<$uni>(&keys, &traces, cfg, None).map_err(|f| (f.stage.name().to_string(), f.msg))?;
             pipe::verify::<$uni>(&proof, cfg, &info.commitment).map_err(|f| (f.stage.name().to_string(), f.msg))
         }
     };
 }
-raw_merkle!(raw_merkle_kb4, raw_merkle_build_kb4, koala_bear_params, p3_poseidon2_circuit_air::KoalaBearD4Width16, p3_circuit::ops::Poseidon2Config::KOALA_BEAR_D4_W16, p3_koala_bear::default_koalabear_poseidon2_16, crate::uni::Kb4);
-raw_merkle!(raw_merkle_bb4, raw_merkle_build_bb4, baby_bear_params, p3_poseidon2_circuit_air::BabyBearD4Width16, p3_circuit::ops::Poseidon2Config::BABY_BEAR_D4_W16, p3_baby_bear::default_babybear_poseidon2_16, crate::uni::Bb4);
+raw_merkle!(raw_merkle_kb4, raw_merkle_build_kb4, raw_merkle_rich_kb4, koala_bear_params, p3_poseidon2_circuit_air::KoalaBearD4Width16, p3_circuit::ops::Poseidon2Config::KOALA_BEAR_D4_W16, p3_koala_bear::default_koalabear_poseidon2_16, crate::uni::Kb4);
+raw_merkle!(raw_merkle_bb4, raw_merkle_build_bb4, raw_merkle_rich_bb4, baby_bear_params, p3_poseidon2_circuit_air::BabyBearD4Width16, p3_circuit::ops::Poseidon2Config::BABY_BEAR_D4_W16, p3_baby_bear::default_babybear_poseidon2_16, crate::uni::Bb4);
 
 /// Honest arm over the raw permutation-call family.
 pub fn raw_run(ctx: &Ctx, idx: u64, c09: bool, out: &mut RunOut) {
@@ -417,8 +480,14 @@ pub fn raw_run(ctx: &Ctx, idx: u64, c09: bool, out: &mut RunOut) {
     let seed = mix(mix(ctx.seed, idx), 0x7261);
     foldhash::sim::set_seed(seed);
     let cfg = ProverCfg { npo: BuilderOpts { poseidon: true, recompose: true }, ..ProverCfg::default() };
-    let kb = idx % 2 == 0;
-    let r = if kb { raw_merkle_kb4(depth, pre, expose, seed, &cfg) } else { raw_merkle_bb4(depth, pre, expose, seed, &cfg) };
+    let kb = (idx / 8) % 2 == 0;
+    // every other pair of runs: sponge rows whose limbs come out of (and go into) ALU ops
+    let rich = (idx / 16) % 2 == 1;
+    let pre = if rich { pre.max(1) } else { pre };
+    if rich {
+        out.count("raw_rows_fed_by_alu_ops");
+    }
+    let r = if kb { raw_merkle_kb4(depth, pre, expose, seed, &cfg, rich) } else { raw_merkle_bb4(depth, pre, expose, seed, &cfg, rich) };
     out.evals += 1;
     out.count("raw_merkle_paths");
     out.count(&format!("raw_rows_{}", if (depth + pre).is_power_of_two() { "pow2" } else { "other" }));
@@ -430,7 +499,7 @@ pub fn raw_run(ctx: &Ctx, idx: u64, c09: bool, out: &mut RunOut) {
             if !c09 || bus {
                 out.violate(
                     if c09 { format!("raw_perm_bus_unbalanced:{class}") } else { format!("raw_perm_honest_failed:{stage}:{class}") },
-                    format!("Merkle path of {depth} permutation rows after {pre} sponge rows (index exposed: {expose}, {}): satisfying by construction, but the pipeline failed at {stage}: {}", if kb { "U-KB4" } else { "U-BB4" }, msg.chars().take(240).collect::<String>()),
+                    format!("Merkle path of {depth} permutation rows after {pre} sponge rows (fed by ALU ops: {rich}; index exposed: {expose}, {}): satisfying by construction, but the pipeline failed at {stage}: {}", if kb { "U-KB4" } else { "U-BB4" }, msg.chars().take(240).collect::<String>()),
                     json!({"raw": true, "idx": idx, "depth": depth, "pre": pre, "expose_index": expose}),
                 );
             }
